@@ -767,6 +767,10 @@ def main():
     for k in ("solves", "rowadd", "rowdel", "recompute", "factorize", "descents"):
         if not tot.get(k): rep.undecided.append("vacuity: no execution reached %s" % k)
     rep.samples.append("paths exercised: %s" % tot)
+    rep.extra["evaluations"] = len(cases) + len(SCHEDULES) * len(scases) + len(nat)
+    rep.extra["distinct_nontrivial"] = len([1 for c in cases if len(c[1]) >= 2]) + len(SCHEDULES) * len([1 for c in scases if len(c[1]) >= 2])
+    rep.extra["rule"] = ("one evaluation = one execution of one solver on one system (exact execution from the extracted code in one regime / worker count / schedule / noise sign, or one native run of the real library); "
+                         "non-trivial = the system has at least two unknowns; systems are distinct by construction (seeded generator, labels carry the draw number)")
     rep.assume("PARTIAL and BOUNDED: decided for nnls_normal_block3 (the solver fitting uses), nnls_normal_block, nnls_normal_block_updown and nnls_lawson_hanson (normal-equation and least-squares form, tolerance 1e-9, no iteration cap) on the enumerated systems only",
                "cholmod (submatrix, sdmult, drop, analyze, factorize, rowadd, rowdel, solve) and SuiteSparseQR's backslash (least-squares solution of a full-column-rank system) are an assumed contract: exact sparse algebra, a factor is the factorisation of its matrix",
                "recompute_factor and get_column run as written: a cholmod_factor is a simplicial LDL' factorisation kept in the arrays (p, i, x, nz, next, ColCount, Perm) that recompute_factor reads and writes, a cholmod_sparse carries its compressed-column arrays; cholmod's own operations on them (analyze, analyze_p, factorize, change_factor, reallocate_column, rowadd, rowdel, solve) are the assumed contract",
